@@ -1135,7 +1135,7 @@ mon_stubs! {
 
 // ---- per-input counters through the loop (C01 counting clause, C05 per-iteration counter value)
 
-// @cell props=C05,C01 tier=thorough kind=attempt timeout=3600 mem=20 cls=K
+// @cell props=C05,C01 tier=thorough kind=attempt timeout=900 mem=20 cls=K
 // @desc with_inputs + input_counter through the whole loop, n=1, s=2, T=1, input values symbolic: the counter closure
 // @desc sees every generated input exactly once (before the start timestamp) and the per-sample figure stored for
 // @desc the statistics is floor(sum of the sample's input counts / sample size)
@@ -1299,11 +1299,15 @@ mon_stubs! {
 }
 
 // @cell props=C08,C02 tier=quick kind=core timeout=2400 mem=28 cls=K
-// @desc same with the by-value/slot path and the inputs-only path (symbolic choice)
+// @desc same with the by-value/slot path
 mon_stubs! {
     #[kani::unwind(6)]
-    fn c08_recorder_barrier_protocol_other_paths() {
-        let w: bool = kani::any();
-        recorder_direct(if w { 1 } else { 2 }, 2, true)
-    }
+    fn c08_recorder_barrier_protocol_values() { recorder_direct(1, 2, true) }
+}
+
+// @cell props=C08,C02 tier=quick kind=core timeout=2400 mem=28 cls=K
+// @desc same with the by-reference/inputs-only path
+mon_stubs! {
+    #[kani::unwind(6)]
+    fn c08_recorder_barrier_protocol_inputs_only() { recorder_direct(2, 2, true) }
 }
